@@ -123,12 +123,16 @@ Step(P, Z, ev, NS) ==
     [] ev.e = "G" -> [Z EXCEPT !.fr = SubSeq(@, 1, Len(@) - 1)]
     [] OTHER -> [Z EXCEPT !.bad = @ \cup {<<"M", 0, "unknown-event", 0, "-">>}]
 
-\* left fold over log[lo..hi] by halving (the recursion depth stays logarithmic in the log length)
+\* left fold over log[lo..hi] by halving.  TLC passes operator arguments lazily: the left half is forced
+\* (zl.n.reads >= 0) BEFORE the right half is entered, otherwise every leaf would force its predecessor
+\* from inside its own evaluation and the Java stack would grow with the length of the log.
 RECURSIVE ScanRange(_, _, _, _, _, _)
 ScanRange(P, log, lo, hi, Z, NS) ==
   IF lo > hi THEN Z
   ELSE IF lo = hi THEN Step(P, Z, log[lo], NS)
-  ELSE LET mid == (lo + hi) \div 2 IN ScanRange(P, log, mid + 1, hi, ScanRange(P, log, lo, mid, Z, NS), NS)
+  ELSE LET mid == (lo + hi) \div 2
+           zl == ScanRange(P, log, lo, mid, Z, NS)
+       IN IF zl.n.reads >= 0 THEN ScanRange(P, log, mid + 1, hi, zl, NS) ELSE zl
 
 Z0 == [fr |-> <<>>, bad |-> {}, n |-> [reads |-> 0, writes |-> 0, windows |-> 0, iters |-> 0, frames |-> 0, points |-> 0]]
 Misses(P, log, NS) == ScanRange(P, log, 1, Len(log), Z0, NS)
